@@ -757,12 +757,16 @@ class Curve(BaseCurve):
         if nodes is None:
             nodes = self.knotvector.knots
         nodes = tuple(set(nodes) - set(self.knotvector.limits))
-        for knot in nodes:
-            try:
-                while True:
-                    self.knot_remove((knot,), tolerance)
-            except ValueError:
-                pass
+        while True:  # removing one knot may bring another one within the tolerance
+            npts = self.npts
+            for knot in nodes:
+                try:
+                    while True:
+                        self.knot_remove((knot,), tolerance)
+                except ValueError:
+                    pass
+            if npts == self.npts:
+                break
 
     def degree_increase(self, times: Optional[int] = 1):
         """Increase the degree of the curve by an amount ``times``
